@@ -16,7 +16,7 @@ ID = "C18"
 TITLE = "Transects cover exactly the part of the path inside the model, in path order"
 MC = {"quick": [("MC_C18", "MC_C18.cfg", 8)], "thorough": [("MC_C18", "MC_C18_thorough.cfg", 16)]}
 TRACE = ("Trace_C18", "Trace_C18.cfg")
-REQUIRED = ["Transect", "prepared-again", "misses-model", "along-shared-edge", "holes", "starts-inside", "starts-outside", "re-enters-cell",
+REQUIRED = ["Transect", "FreeTransect", "free-with-segments", "prepared-again", "misses-model", "along-shared-edge", "holes", "starts-inside", "starts-outside", "re-enters-cell",
             "several-vertices", "diagonal", "cf1d", "cf2d", "shoc_simple", "shoc_standard", "arakawa", "ugrid"]
 RULE = ("one case = one dataset whose cells are axis-aligned lattice rectangles (every convention incl. quad meshes, with holes) "
         "and a batch of seeded polylines of 2-5 vertices on the quarter-cell lattice with axis-parallel or 45-degree segments: "
@@ -136,6 +136,17 @@ def cases(tier: str, seed: int) -> list[dict]:
                 ev.append({"a": "Transect", "path": p, "var": "temp" if kp % 2 == 0 else "fort", "shift": 1000 if kp % 3 != 1 else 0})
             for _ in range(6 if tier == "quick" else 30):
                 ev.append({"a": "Transect", "path": random_path(rng, bbox, rng.randint(2, 5)), "var": rng.choice(["temp", "fort", ""]), "shift": 0})
+            if conv == "cf1d":
+                # a path off the lattice: it comes from 470 km away and cuts the outer corner of the last cell by a metre or
+                # two.  Only structural clauses apply (the columns that are plotted are the segments, in order).
+                g = w["geom"]
+                cx = max(max(r) for r in g["xb"]) * SCALE
+                cy = max(max(r) for r in g["yb"]) * SCALE
+                d = 1e-5
+                ev.append({"a": "FreeTransect", "var": "temp", "label": "corner-sliver-far",
+                           "pathf": [[cx - d - 3.0, cy + 3.0], [cx + 0.5, cy - d - 0.5]]})
+                ev.append({"a": "FreeTransect", "var": "temp", "label": "through-and-sliver",
+                           "pathf": [[cx - 0.3, cy - 3.0], [cx - 0.3, cy - 0.2], [cx - d - 0.4, cy + 0.4], [cx + 0.5, cy - d - 0.5]]})
             out.append({"src": "gen", "world": w, "events": ev})
     vias = ["file", "memory", "dask", "emsopen", "memory"]      # how the dataset is held (viafile.hold)
     for k, c in enumerate(out):
@@ -170,6 +181,20 @@ def execute(case: dict) -> dict:
     for e in case["events"]:
         e = dict(e)
 
+        def run_free():
+            line = shapely.LineString([tuple(p) for p in pathf])
+            tr = Transect(ds, line, depth=depth_name)
+            seglinear = [as_int(s.linear_index) for s in tr.segments]
+            td = tr.transect_dataset
+            prepared = tr.prepare_data_array_for_transect(ds[e["var"]])
+            return {"seglinear": seglinear, "tdlinear": [as_int(v) for v in td["linear_index"].values.tolist()],
+                    "nbounds": int(td["distance_bounds"].shape[0]), "ncols": int(prepared.shape[-1])}
+        if e["a"] == "FreeTransect":
+            pathf = e.pop("pathf")
+            e["obs"] = outcome(run_free)
+            rec["events"].append(e)
+            continue
+
         def run():
             u = w.get("unit", UNIT)
             line = shapely.LineString([(x * u * SCALE, y * u * SCALE) for x, y in e["path"]])
@@ -181,8 +206,9 @@ def execute(case: dict) -> dict:
                              "stop": [units_of(s.end_point.x, u), units_of(s.end_point.y, u)],
                              "d0": int(round(s.start_distance)), "d1": int(round(s.end_distance))})
             out = {"segments": segs}
+            td = tr.transect_dataset
+            out["tdlinear"] = [as_int(v) for v in td["linear_index"].values.tolist()]
             if e["var"]:
-                td = tr.transect_dataset
                 out["prepared"] = CD.proj_array(e["var"], tr.prepare_data_array_for_transect(ds[e["var"]]))
                 if e.get("shift"):
                     # the same Transect object prepares another array of the same name, dimensions and shape (e.g. the next
